@@ -51,6 +51,8 @@ typedef struct {
     rdsparser_t *rds;
     unsigned char *storage; /* caller-allocated block incl. canaries, or NULL for heap */
     snap_t prev;
+    /* what the harness itself last told the library (also from inside callbacks): which callbacks are registered, user data */
+    int reg[12]; unsigned long ud; int mirror_valid;
 } inst_t;
 
 static THREADLOCAL inst_t inst[NINST];
@@ -63,7 +65,9 @@ static THREADLOCAL rdsparser_t *cur_handle = NULL;
  * bit 0: register/unregister another callback; bit 1: change the user-data pointer */
 static THREADLOCAL int reent = 0;
 static THREADLOCAL unsigned long reent_count = 0;
+static THREADLOCAL char xmsg[160];
 static void do_register(rdsparser_t *r, int k, int on);
+static void do_set_ud(rdsparser_t *r, unsigned long u);
 
 static const int caps[4] = { RDSPARSER_PS_LENGTH, RDSPARSER_RT_LENGTH, RDSPARSER_RT_LENGTH, RDSPARSER_PTYN_LENGTH };
 
@@ -125,10 +129,17 @@ static event_t *new_event(rdsparser_t *r, int kind, long arg, void *ud)
     /* exercise every getter inside the callback (C15: getters are pure observers) */
     snap_t tmp; snap_all(r, &tmp);
     (void)rdsparser_get_rt(r, 7);
+    /* C15: a removed callback is skipped and every invoked callback gets the user data most recently set — also when the
+     * removal / the change was made a moment ago from inside another callback of the same parse call */
+    for (int i = 0; i < NINST; i++)
+        if (inst[i].rds == r && inst[i].mirror_valid && !xmsg[0]) {
+            if (!inst[i].reg[kind]) snprintf(xmsg, sizeof xmsg, "X callback %d invoked although it is not registered", kind);
+            else if (inst[i].ud != (unsigned long)(uintptr_t)ud) snprintf(xmsg, sizeof xmsg, "X callback %d got user data %lu, most recently set: %lu", kind, (unsigned long)(uintptr_t)ud, inst[i].ud);
+        }
     if (reent) {
         reent_count++;
         if (reent & 1) do_register(r, (int)((kind + 1 + reent_count % 7) % 12), (int)((reent_count / 3) & 1));
-        if (reent & 2) rdsparser_set_user_data(r, (void *)(uintptr_t)(0x5000 + reent_count % 97));
+        if (reent & 2) do_set_ud(r, 0x5000 + reent_count % 97);
     }
     return e;
 }
@@ -156,8 +167,15 @@ static void cb_ct(rdsparser_t *r, const rdsparser_ct_t *ct, void *ud)
     e->ct[5] = rdsparser_ct_get_offset(ct);
 }
 
+static void do_set_ud(rdsparser_t *r, unsigned long u)
+{
+    for (int i = 0; i < NINST; i++) if (inst[i].rds == r) inst[i].ud = u;
+    rdsparser_set_user_data(r, (void *)(uintptr_t)u);
+}
+
 static void do_register(rdsparser_t *r, int k, int on)
 {
+    for (int i = 0; i < NINST; i++) if (inst[i].rds == r) inst[i].reg[k] = on;
     switch (k) {
     case 0: rdsparser_register_pi(r, on ? cb_pi : NULL); break;
     case 1: rdsparser_register_pty(r, on ? cb_pty : NULL); break;
@@ -229,6 +247,7 @@ static void emit_state(inst_t *in, long k, int ret)
 {
     fprintf(OUT, "O %ld %d %d\n", k, cur, ret);
     if (ev_overflow) { fprintf(OUT, "X event overflow %ld\n", ev_overflow); ev_overflow = 0; }
+    if (xmsg[0]) { fprintf(OUT, "%s\n", xmsg); xmsg[0] = 0; }
     qsort(evs, nev, sizeof evs[0], ev_cmp);
     for (int i = 0; i < nev; i++) {
         event_t *e = &evs[i];
@@ -299,6 +318,7 @@ int run_ops_file(const char *path, FILE *out)
         } else if (!strcmp(line, "new")) {
             release(in);
             memset(&in->prev, 0, sizeof in->prev);
+            memset(in->reg, 0, sizeof in->reg); in->ud = 0; in->mirror_valid = 1;
 #ifndef RDSPARSER_DISABLE_HEAP
             in->rds = rdsparser_new();
             if (!in->rds) { fprintf(stderr, "harness: rdsparser_new failed\n"); return 3; }
@@ -308,6 +328,7 @@ int run_ops_file(const char *path, FILE *out)
         } else if (!strcmp(line, "init")) {
             if (!in->rds) caller_alloc(in);
             memset(&in->prev, 0, sizeof in->prev);
+            memset(in->reg, 0, sizeof in->reg); in->ud = 0; in->mirror_valid = 1;
             rdsparser_init(in->rds);
         } else if (!strcmp(line, "free")) {
             release(in);
@@ -360,7 +381,7 @@ int run_ops_file(const char *path, FILE *out)
             do_register(in->rds, kk, on);
         } else if (line[0] == 'u' && line[1] == ' ') {
             unsigned long u = strtoul(line + 2, NULL, 10);
-            rdsparser_set_user_data(in->rds, (void *)(uintptr_t)u);
+            do_set_ud(in->rds, u);
         } else if (line[0] == 'r' && line[1] == 'i' && line[2] == ' ') {
             reent = atoi(line + 3);
         } else if (!strcmp(line, "q")) {
